@@ -260,6 +260,14 @@ func (s *Server) Header() *pdpb.RequestHeader {
 	return &pdpb.RequestHeader{ClusterId: s.Svr.ClusterID()}
 }
 
+// Abandon is for the end of the harness process: the trace is written, nothing is gained by a graceful
+// shutdown (which occasionally hangs, or panics in one of pd's goroutines): only the data directory goes.
+func (s *Server) Abandon() {
+	if s.dir != "" {
+		os.RemoveAll(s.dir)
+	}
+}
+
 // Stop closes the server and removes its data directory.
 func (s *Server) Stop() {
 	done := make(chan struct{})
